@@ -343,6 +343,8 @@ def gen_spec(rng, s):
     """content of a source UFO of format s (for s < 3: what such a UFO holds on disk)"""
     spec = fg.gen_font(rng, max_layers=3, max_glyphs=5)
     name_anchors(spec)
+    # the default layer is not always the first one
+    spec["default"] = rng.choice([l["name"] for l in spec["layers"]])
     info = spec["info"]
     for a in rng.sample(sorted(EXTRA_INFO), rng.randint(0, 5)):
         info[a] = copy.deepcopy(rng.choice(EXTRA_INFO[a]))
@@ -486,7 +488,7 @@ def gen_font_case(rng, tier, i):
         ops.append(["save", t, mode, st])
         return t
 
-    k = (i // 4) % 8
+    k = (i // 4) % 9
     others = [t for t in (1, 2, 3) if t != s]
     if k == 0:                      # plain conversion, nothing read before
         save(rng.choice(others))
@@ -526,6 +528,25 @@ def gen_font_case(rng, tier, i):
     elif k == 6:                    # same format (no conversion) to another path / in place, after edits
         edits(rng.randint(1, 3))
         save(s)
+    elif k == 7:                    # convert, then delete / add / change glyphs of the default layer, save in place in the
+        t = save(rng.choice(others))    # new format: the font must by then work against the UFO it wrote
+        D = sh.layer(sh.s["default"])
+        present = sorted(D["glyphs"])
+        script = []
+        if present:
+            script.append(["gdel", D["name"], rng.choice(present)])
+        if len(present) > 1 and rng.random() < 0.6:
+            script.append(["gfield", D["name"], [g for g in present if g != script[0][2]][0], "width", 555])
+        if rng.random() < 0.6:
+            gn = rng.choice(fg.GLYPH_NAMES)
+            g = fg.gen_glyph(rng, gn, sh.s["images"])
+            for j, a in enumerate(g["anchors"]):
+                a[2] = a[2] or "an%d" % j
+            script.append(["ginsert", D["name"], gn, g])
+        for op in script:
+            if sh.do(copy.deepcopy(op)):
+                ops.append(op)
+        save(t, "inplace")
     else:                           # op soup
         for _ in range(rng.randint(2, 5 if tier == "quick" else 9)):
             r = rng.random()
